@@ -112,6 +112,12 @@ func (fr *Frame) doCall(in ssa.Instruction, cc *ssa.CallCommon, fv Val, args []V
 			return fr.havocCall(in, "dynamic-call:"+shortTypeKey(cc.Value.Type()), resT, nil)
 		}
 	}
+	return fr.callResolved(in, callee, binds, args, resT)
+}
+
+// callResolved: a call whose callee is statically known (contract, model, inlining or havoc).
+func (fr *Frame) callResolved(in ssa.Instruction, callee *ssa.Function, binds []Val, args []Val, resT types.Type) Val {
+	e := fr.e
 	key := e.L.funcKey(callee)
 	sp := e.L.specFor(callee)
 	if sp != nil && sp.NoReturn {
@@ -267,7 +273,73 @@ func (fr *Frame) applyContract(in ssa.Instruction, callee *ssa.Function, sp *Fun
 		}
 		e.assume(mkImp(fr.pc, t))
 	}
+	if sp.CallsEach != "" {
+		fr.applyCallsEach(in, sp, env2)
+	}
 	return res
+}
+
+// applyCallsEach: the higher-order clause "callseach opts(e)": the callee's effect is that of
+// calling opts[0](e), opts[1](e), ... in order, skipping nil entries. It is applied when the
+// slice is a literal-length argument list whose elements are statically known closures;
+// otherwise the event stores the options may touch are havocked.
+func (fr *Frame) applyCallsEach(in ssa.Instruction, sp *FuncSpec, env *SpecEnv) {
+	e := fr.e
+	x, err := parseSpecExpr(sp.CallsEach)
+	if err != nil || x.Op != "call" {
+		e.errs = append(e.errs, sp.File+": bad callseach clause")
+		return
+	}
+	sl, err := env.eval(x.Args[0])
+	if err != nil || kindOf(sl.T) != kSlice {
+		e.errs = append(e.errs, fmt.Sprintf("%s: callseach: %v", sp.File, err))
+		return
+	}
+	var cargs []Val
+	for _, a := range x.Args[1:] {
+		v, err := env.eval(a)
+		if err != nil {
+			e.errs = append(e.errs, fmt.Sprintf("%s: callseach: %v", sp.File, err))
+			return
+		}
+		cargs = append(cargs, v)
+	}
+	el := sl.T.Underlying().(*types.Slice).Elem()
+	n, _, isLit := litVal(sl.sLen())
+	giveUp := func(why string) {
+		e.flag("callseach-not-expanded: " + why)
+		for _, k := range []string{"X:ghas", "X:gstore"} {
+			if srt, known := e.keySort[k]; known {
+				fr.st.heap[k] = e.fresh("Hce_"+k, srt)
+			} else {
+				e.pendingHavoc(fr.st, k)
+			}
+		}
+	}
+	if !isLit || !n.IsInt64() || n.Int64() > 16 {
+		giveUp("argument list of unknown length")
+		return
+	}
+	sig, _ := el.Underlying().(*types.Signature)
+	for i := int64(0); i < n.Int64(); i++ {
+		fv := e.loadAddr(fr.st, &Addr{Kind: aElem, T: el, Ref: sl.sBase(), Idx: bvAdd(sl.sOff(), bvLitI(64, i)), Key: "E:" + typeKey(el)})
+		if fv.S == "0" {
+			continue // nil option: skipped
+		}
+		st, ok := e.fnStatic[fv.S]
+		if !ok {
+			giveUp("option " + fmt.Sprint(i) + " is not a statically known closure")
+			return
+		}
+		var rT types.Type = types.NewTuple()
+		if sig != nil {
+			rT = sig.Results()
+			if sig.Results().Len() == 1 {
+				rT = sig.Results().At(0).Type()
+			}
+		}
+		fr.callResolved(in, st.Fn, st.Binds, cargs, rT)
+	}
 }
 
 func lastName(key string) string {
